@@ -434,7 +434,7 @@ HARNESS = ("h_core", "framing")
 
 BUDGET = {
     # reps: representatives per codec used in sequences; b3_reps: ... in the model checked sequences
-    "quick": dict(small=True, reps=4, max_frames=2, cuts_single=2, cuts_pair=1, cuts_longer=1, double_budget=6000, byte_budget=1500, sim=400,
+    "quick": dict(small=True, reps=4, max_frames=2, cuts_single=2, cuts_pair=1, cuts_longer=1, double_budget=6000, byte_budget=1500, sim=300,
                   sim_depth=400, b3_reps=1, b3_frames=2, live_seqs=40, chunk=120000, par=3, bad_frag=("whole", "bytes", "field")),
     "thorough": dict(small=False, reps=5, max_frames=3, cuts_single=2, cuts_pair=2, cuts_longer=1, double_budget=700000, byte_budget=10 ** 9, sim=3000,
                      sim_depth=800, b3_reps=3, b3_frames=3, live_seqs=400, chunk=400000, par=4, bad_frag=("whole", "bytes", "field")),
@@ -863,8 +863,8 @@ def run(tier, out):
     cfg = core.cfg(constants={"MaxFrames": b["max_frames"], "PieceBounds": {1, 2, 3, 5, 8, 16}, "RecordHist": True},
                    invariants=["SimDump"])
     cfg += "CONSTANT Layouts <- DataLayouts\nCONSTANT GivenSeqs <- DataSeqs\n"
-    s = core.run_tlc("MC_Framing", cfg, os.path.join(wd, "sim"), workers=1, coverage=False,
-                     simulate="num=%d" % b["sim"], extra=["-depth", str(b["sim_depth"]), "-seed", str(core.seed())],
+    s = core.run_tlc("MC_Framing", cfg, os.path.join(wd, "sim"), workers=3, coverage=False,
+                     simulate="num=%d" % (b["sim"] // 3), extra=["-depth", str(b["sim_depth"]), "-seed", str(core.seed())],
                      spec_dirs=(core.SPECS, gen_dir), timeout=1500)
     sims = s.tagged["SIM"]
     core.log("[C10] MC_Framing -simulate: %d behaviours (%.1fs)" % (len(sims), s.wall))
